@@ -13,6 +13,7 @@ margins are NaN (reads poison the result) and checked for modification after the
 from __future__ import annotations
 
 import os
+import re
 import subprocess
 from pathlib import Path
 
@@ -124,13 +125,26 @@ def include_dir() -> str:
     return ffcx.codegeneration.get_include_path()
 
 
-def cc_compile(source: str, workdir: Path, name: str, cc="gcc", cflags=("-O1",), shared=True) -> Path:
+_POSIX_BESSEL = re.compile(r"\b[jy]n\(")
+
+
+def uses_posix_bessel(source: str) -> bool:
+    return bool(_POSIX_BESSEL.search(source))
+
+
+def cc_compile(source: str, workdir: Path, name: str, cc="gcc", cflags=("-O1",), shared=True, strict_c17=False) -> Path:
     workdir = Path(workdir)
     workdir.mkdir(parents=True, exist_ok=True)
     cfile = workdir / f"{name}.c"
     cfile.write_text(source)
     out = workdir / (f"{name}.so" if shared else f"{name}.o")
-    cmd = [cc, "-std=c17", "-Wall", *cflags, "-fPIC", f"-I{include_dir()}"]
+    # A call of an undeclared function is not valid C17 (gcc 12 only warns and then assumes an int result, which silently
+    # corrupts values), so it is made an error here.  Known finding C19:bessel-posix-undeclared: generated code calls the
+    # POSIX functions jn/yn, which ISO <math.h> does not declare under -std=c17; such sources get _DEFAULT_SOURCE (counted by
+    # the checks as class "posix-bessel") so that the search continues behind that finding; `strict_c17` is the probe.
+    cmd = [cc, "-std=c17", "-Wall", "-Werror=implicit-function-declaration", *cflags, "-fPIC", f"-I{include_dir()}"]
+    if uses_posix_bessel(source) and not strict_c17:
+        cmd.append("-D_DEFAULT_SOURCE")
     cmd += ["-shared", str(cfile), "-o", str(out), "-lm"] if shared else ["-c", str(cfile), "-o", str(out)]
     r = subprocess.run(cmd, capture_output=True, text=True, cwd=str(workdir))
     if r.returncode != 0:
